@@ -165,6 +165,15 @@ pub fn c01_cells(tier: Tier) -> Vec<Value> {
             cells.push(cell_spec(&base_cfg(Role::Sender, len, 65464, ws), 1, MAXE, &p));
         }
     }
+    // duplicate-packets mode: every copy must carry the right slice under the right number
+    for ws in [1u16, 2, 3] {
+        for len in [3usize, 2 * ws as usize * 8 + 3] {
+            let mut cfg = base_cfg(Role::Sender, len, 8, ws);
+            cfg.repeat = 2;
+            cfg.alpha = 2;
+            cells.push(cell_spec(&cfg, 1, MAXE, &p));
+        }
+    }
     let big_ws: &[u16] = if tier == Tier::Quick { &[8, 64] } else { &[8, 64, 65534, 65535] };
     for &ws in big_ws {
         let w = ws as usize;
@@ -362,6 +371,15 @@ pub fn c16_cells(tier: Tier) -> Vec<Value> {
                 }
             }
         }
+    }
+    // a burst of copies long enough to reach the timeout (N x windowsize x 1 ms >= 1 s): a duplicate ACK right after it
+    // must still not trigger a retransmission (the timer counts from the END of the transmission)
+    {
+        let mut cfg = base_cfg(Role::Sender, 64 * blk + 3, blk, 64);
+        cfg.repeat = 17;
+        cfg.timeout_s = 1;
+        cfg.alpha = 5;
+        cells.push(cell_spec(&cfg, 1, MAXE, &p));
     }
     // N = 254 on one 2-block transfer per role (each copy is followed by a real 1 ms pause in the subject)
     for role in [Role::Sender, Role::Receiver] {
